@@ -916,7 +916,10 @@ func (fc *FnCtx) convert(v V, to types.Type) V {
 		return fc.freshV(to, "fconv")
 	case isInteger(from) && isString(to):
 		return fc.freshWF(to, "runestr", fc.cur)
-	case isPointer(from) || isPointer(to) || from.Underlying().String() == "unsafe.Pointer":
+	case from.Underlying().String() == "unsafe.Pointer" || to.Underlying().String() == "unsafe.Pointer":
+		// reinterpreting memory through unsafe.Pointer is outside the memory model: nothing about such a function is proved
+		panic(unsupported("conversion through unsafe.Pointer (the typed heap model cannot follow it)"))
+	case isPointer(from) || isPointer(to):
 		return V{Ty: to, T: v.T, Loc: v.Loc}
 	}
 	if len(fc.e.comps(from)) == len(fc.e.comps(to)) {
